@@ -465,6 +465,19 @@ class FileOutput:
         self.fd = None
 
 
+def dateFromNumber(number):
+    # day numbers that denote no date of the years 1900 to 9999 (among
+    # them numbers far too large to count up to) are a runtime error
+    try:
+        if not number < 3000000:
+            raise ValueError()
+        return ValueDate(to_date(number))
+    except (ValueError, OverflowError):
+        raise CklRuntimeError(
+            ValueString("ERROR"), "Cannot convert " + str(number) + " to date"
+        )
+
+
 class Value:
     def __init__(self):
         self.info = ""
@@ -836,7 +849,7 @@ class ValueDecimal(Value):
         return self
 
     def asDate(self):
-        return ValueDate(to_date(self.value))
+        return dateFromNumber(self.value)
 
     def asList(self):
         return ValueList().addItem(self)
@@ -968,7 +981,7 @@ class ValueInt(Value):
         return ValueBoolean.fromval(self.value != 0)
 
     def asDate(self):
-        return ValueDate(to_date(self.value))
+        return dateFromNumber(self.value)
 
     def asList(self):
         return ValueList().addItem(self)
